@@ -437,3 +437,53 @@ let mqr_case (f : string array) : string =
       (match !bad with
        | Some why -> "LOCKSTEP-FAIL at the end: " ^ why
        | None -> Printf.sprintf "LOCKSTEP-OK %d labels" (List.length labels))
+
+(* ---------------- lock-step replay of a recorded trace of the real task pool (tps) ---------------- *)
+(* tpr <a|f> <labels> <started> *)
+let tpr_case (f : string array) : string =
+  let fixed = f.(1) <> "a" in
+  let labels = if f.(2) = "-" then [] else String.split_on_char ';' f.(2) in
+  let s = ref Model.tp_init in
+  let fail = ref None in
+  let dropped = ref false in
+  List.iteri (fun k lab ->
+      if !fail = None then begin
+        let n = String.length lab in
+        let pre p = n >= String.length p && String.sub lab 0 (String.length p) = p in
+        let num from = int_of_string (String.sub lab from (n - from)) in
+        let st l = (match Model.tp_step_replay fixed !s l with Some s' -> s := s'; true | None -> false) in
+        let ok =
+          if pre "OBS" then begin
+            if !dropped then true else
+            match String.split_on_char '/' (String.sub lab 3 (n - 3)) with
+            | [t; w; a] ->
+                int_of_string t = List.length !s.Model.todo && int_of_string w = int_of_nat !s.Model.waiting
+                && int_of_string a = int_of_nat !s.Model.active
+            | _ -> false
+          end
+          else if pre "TK" then st (Model.Tick0 (nat_of_int (num 2)))
+          else if pre "TO" then st (Model.Timeout0 (nat_of_int (num 2)))
+          else if pre "TD" then st (Model.TaskDone (nat_of_int (num 2)))
+          else if pre "PD" then (dropped := true; st Model.PoolDrop)
+          else if pre "D" then begin
+            let (tk, w) = split2 ':' (String.sub lab 1 (n - 1)) in
+            st (Model.Dispatch (nat_of_int (int_of_string tk), if w = "-" then None else Some (nat_of_int (int_of_string w))))
+          end
+          else if pre "S" then st (Model.Start (nat_of_int (num 1)))
+          else if pre "L" then st (Model.Lock (nat_of_int (num 1)))
+          else if pre "R" then st (Model.Resume0 (nat_of_int (num 1)))
+          else if pre "X" then st (Model.Exit (nat_of_int (num 1)))
+          else false in
+        if not ok then
+          fail := Some (Printf.sprintf "label %d (%s) is not enabled in the model / disagrees with its state (todo=%d waiting=%d active=%d)"
+                          k lab (List.length !s.Model.todo) (int_of_nat !s.Model.waiting) (int_of_nat !s.Model.active))
+      end) labels;
+  match !fail with
+  | Some why -> "LOCKSTEP-FAIL " ^ why
+  | None ->
+      let ms = List.sort compare (List.map int_of_nat !s.Model.started) in
+      let is = List.sort compare (if f.(3) = "-" then [] else List.map int_of_string (String.split_on_char ',' f.(3))) in
+      if ms <> is then
+        Printf.sprintf "LOCKSTEP-FAIL at the end: tasks started [%s] in the implementation, [%s] in the model"
+          (String.concat "," (List.map string_of_int is)) (String.concat "," (List.map string_of_int ms))
+      else Printf.sprintf "LOCKSTEP-OK %d labels" (List.length labels)
